@@ -306,6 +306,9 @@ type Conn struct {
 	fault *Fault
 	calls int
 	Log   []Event
+	// two concurrent starters (conc.go): every call waits for the scheduler, which also says how it ends
+	gate *gate
+	who  int
 }
 
 var errInjected = errors.New("fake clickhouse: injected failure")
@@ -318,6 +321,22 @@ func (c *Conn) call(ev Event, cluster bool, whole bool, eff func(h *Host) error)
 	n := c.calls
 	c.calls++
 	kind, ferr, skip := c.fault.at(n)
+	if c.gate != nil {
+		c.gate.req[c.who] <- struct{}{}
+		g := <-c.gate.grant[c.who]
+		before := len(c.Log)
+		defer func() {
+			// remember where the event this call appended sits in the global order
+			if len(c.Log) > before {
+				c.gate.order = append(c.gate.order, [2]int{c.who, len(c.Log) - 1})
+			}
+			c.gate.done[c.who] <- struct{}{}
+		}()
+		if g.dead {
+			return errInjected
+		}
+		kind, ferr, skip = g.e.Kind, errorOf(g.e.Err), g.e.Skip
+	}
 	if kind == "before" || (kind == "partial" && whole) {
 		ev.R = "fb"
 		if kind == "partial" {
